@@ -271,7 +271,9 @@ pub fn expect(pre: &Snap, op: &OpKind, ovh: usize, vsz: usize) -> Expect {
 pub fn check_state(post: &Snap, v: &mut Vec<Fail>) {
     if let Some(e) = &post.walk_err {
         fail(v, "C07", format!("structure incoherent: {}", e));
-        return;
+        if post.walk_hard {
+            return;
+        }
     }
     if post.cur > post.max {
         fail(v, "C01", format!("current_size {} exceeds max_size {}", post.cur, post.max));
@@ -381,7 +383,7 @@ pub fn check_outcome(o: &Outcome, ovh: usize, vsz: usize) -> Vec<Fail> {
         }
     }
     let (op, pre) = match (&o.line.op, &o.pre) {
-        (Op::On { op, .. }, Some(pre)) if pre.full && pre.walk_err.is_none() => (op, pre),
+        (Op::On { op, .. }, Some(pre)) if pre.full && !pre.walk_hard => (op, pre),
         (Op::Clone { .. }, Some(pre)) if pre.full => {
             check_clone(o, pre, &mut v);
             return v;
@@ -461,7 +463,7 @@ pub fn check_outcome(o: &Outcome, ovh: usize, vsz: usize) -> Vec<Fail> {
         }
     }
     let post = match &o.post {
-        Some(p) if p.full && p.walk_err.is_none() => p,
+        Some(p) if p.full && !p.walk_hard => p,
         _ => return v,
     };
     if post.max != ex.max {
